@@ -86,7 +86,7 @@ def run(chk, scratch):
     worlds = {}
     for seed in seeds:
         d = os.path.join(scratch, "w%d" % seed)
-        w = world2.rich_world(seed, n_chroms=4, genes_per_chrom=3, reads_per_t=6, hidden_cov=5)
+        w = world2.rich_world(seed, n_chroms=4, genes_per_chrom=3, reads_per_t=6, hidden_cov=5, zoo=world2.ZOO_ALL)
         pipeline.write_world(w, d)
         worlds[seed] = (d, w)
 
@@ -132,6 +132,7 @@ def run(chk, scratch):
             nofeat_reads = set()
             nofeat_records = 0
             multi_locus_single = defaultdict(int)
+            multi_locus_multi = defaultdict(int)
             for read, rl in by_read.items():
                 feats = set()
                 for rc_ in rl:
@@ -155,6 +156,9 @@ def run(chk, scratch):
                                 confirming |= f
                     if len(rl) > 1 and len(f) == 1 and k > 1:
                         multi_locus_single[next(iter(f))] += 1
+                    if len(rl) > 1 and len(f) > 1 and k > len(f):
+                        for x in f:
+                            multi_locus_multi[x] += 1
                     wgt_rec = weights.weight(atype, len(f), strat)
                     for x in f:
                         exp[x] += wgt
@@ -174,12 +178,12 @@ def run(chk, scratch):
                 ok_zero = val == 0.0 and feat not in confirming
                 if not (ok_sum or ok_zero):
                     key = "count-cell-differs:%s:%s" % (level, strat)
-                    if multi_locus_single.get(feat) and abs(val - float(exp_rec.get(feat, 0))) <= 0.005 + 1e-9:
+                    if (multi_locus_single.get(feat) or multi_locus_multi.get(feat)) and abs(val - float(exp_rec.get(feat, 0))) <= 0.005 + 1e-9:
                         # exactly the value obtained when a read kept on several loci is weighted per locus
-                        key = "multi-locus-tie/single-feature-record:%s" % level
+                        key = "multi-locus-tie/%s-feature-record:%s" % ("multi" if multi_locus_multi.get(feat) else "single", level)
                     chk.violation(key, "%s: %s %s printed %.2f, documented weights give %s (= %.4f) from assignment types %s%s" %
                                   (desc, fname, feat, val, e, float(e), sorted(types_of.get(feat, ())),
-                                   "; the feature has single-feature records of reads kept on several loci" if multi_locus_single.get(feat) else ""), wit)
+                                   "; the feature has records of reads kept on several loci" if (multi_locus_single.get(feat) or multi_locus_multi.get(feat)) else ""), wit)
             for feat, e in exp.items():
                 if e > 0 and feat not in table:
                     chk.violation("count-row-missing:%s" % level, "%s: %s has no row for %s (expected %s)" % (desc, fname, feat, e), wit)
@@ -203,11 +207,19 @@ def run(chk, scratch):
         exp = defaultdict(Fraction)
         model_chr = {}
         try:
-            for tid, tr in o.models().transcripts.items():
-                model_chr[tid] = tr["chr"]
+            # locus of a model = connected component of overlapping model spans on its chromosome
+            spans = sorted((tr["chr"], min(e[0] for e in tr["exons"]), max(e[1] for e in tr["exons"]), tid) for tid, tr in o.models().transcripts.items())
+            cur = None
+            for c_, s_, e_, tid in spans:
+                if cur is None or cur[0] != c_ or s_ > cur[2]:
+                    cur = [c_, s_, e_]
+                else:
+                    cur[2] = max(cur[2], e_)
+                model_chr[tid] = (c_, cur[1])
         except Exception:
             pass
         tie_models = set()
+        tie_multi = set()
         exp_rec_m = defaultdict(Fraction)
         for read, ms in models_of.items():
             wgt = Fraction(1) if len(ms) == 1 else (Fraction(1, len(ms)) if weights.admits(t)["ambiguous"] else Fraction(0))
@@ -217,6 +229,9 @@ def run(chk, scratch):
             if len(per_chr) > 1:
                 # a read kept on several loci: models of one locus see it as a read of that locus only
                 tie_models |= ms
+                for cms in per_chr.values():
+                    if len(cms) > 1:
+                        tie_multi |= cms
             for m in ms:
                 exp[m] += wgt
             for c_, cms in per_chr.items():
@@ -233,7 +248,7 @@ def run(chk, scratch):
             if abs(val - float(e)) > 0.005 + 1e-9:
                 key = "model-count-cell-differs:%s" % t
                 if m in tie_models and abs(val - float(exp_rec_m.get(m, 0))) <= 0.005 + 1e-9:
-                    key = "multi-locus-tie/single-feature-record:transcript_model"
+                    key = "multi-locus-tie/%s-feature-record:transcript_model" % ("multi" if m in tie_multi else "single")
                 chk.violation(key, "%s: transcript_model_counts %s printed %.2f, reads listed for it give %s%s" %
                               (desc, m, val, e, "; some of its reads are kept on several loci" if m in tie_models else ""), wit)
         for m, e in exp.items():
@@ -251,7 +266,8 @@ def run(chk, scratch):
                 lvl = "gene" if "gene" in f else "transcript"
                 key = "read-total-weight-above-1:" + lvl
                 if len(by_read.get(read, ())) > 1:
-                    key = "multi-locus-tie/single-feature-record:" + lvl
+                    multi = any(len(rc_["genes"] if lvl == "gene" else rc_["isoforms"]) > 1 for rc_ in by_read[read])
+                    key = "multi-locus-tie/%s-feature-record:%s" % ("multi" if multi else "single", lvl)
                 chk.violation(key, "%s: read %s added a total weight of %.3f to the %s counters (reported on %d loci)" %
                               (desc, read, v, lvl, len(by_read.get(read, ()))), wit)
         chk.count("increment_events", len(tot))
